@@ -65,10 +65,13 @@ let mut header = Vec::new();
 //@@ end
 }
 /// RFC 7578 part header: delimiter line, Content-Disposition with name and optional filename, Content-Type, blank line
-pub open spec fn part_header_spec(boundary: Seq<char>, name: Seq<char>, filename: Option<Seq<char>>, ct: &Mime) -> Seq<u8> {
-    str_bytes(boundary) + str_bytes("\r\nContent-Disposition: form-data; name=\""@) + str_bytes(name) + dq()
+pub open spec fn part_header_bytes(delim: Seq<u8>, name: Seq<char>, filename: Option<Seq<char>>, ct: &Mime) -> Seq<u8> {
+    delim + str_bytes("\r\nContent-Disposition: form-data; name=\""@) + str_bytes(name) + dq()
         + (match filename { Some(f) => str_bytes("; filename=\""@) + str_bytes(f) + dq(), None => Seq::empty() })
         + str_bytes("\r\nContent-Type: "@) + mime_bytes(ct) + seq![13u8, 10u8, 13u8, 10u8]
+}
+pub open spec fn part_header_spec(boundary: Seq<char>, name: Seq<char>, filename: Option<Seq<char>>, ct: &Mime) -> Seq<u8> {
+    part_header_bytes(str_bytes(boundary), name, filename, ct)
 }
 
 //@@ item src/multipart_crate/lazy.rs struct PreparedFields vis=pub
@@ -174,6 +177,138 @@ total_read += if
                 && final(buf)@.take(n as int) == old(self).owed_mp().take(n as int)
                 && final(self).owed_mp() == old(self).owed_mp().skip(n as int)
                 && (n == 0 ==> old(buf)@.len() == 0 || old(self).owed_mp().len() == 0),
+//@@ end
+}
+//@@ item src/multipart_crate/lazy.rs struct LazyError vis=pub
+//@@ end
+pub type LazyIoError<'a> = LazyError<'a, io::Error>;
+//@@ item src/multipart_crate/lazy.rs struct Field vis=pub
+//@@ end
+//@@ item src/multipart_crate/lazy.rs enum Data vis=pub
+//@@ rw R11
+Cow<'d, Path>
+//@@ =>
+CowPath<'d>
+//@@ end
+//@@ item src/multipart_crate/lazy.rs struct Stream vis=pub
+//@@ end
+/// `PreparedField::from_path(name, &file, &boundary)` (R6: opens the file and measures it; nothing claimed about file fields)
+#[verifier::external_body]
+pub fn vp_from_path<'n, 'd>(name: Cow<'n, str>, path: &CowPath<'d>, boundary: &String) -> (res: Result<(PreparedField<'d>, u64), LazyIoError<'n>>)
+    ensures res matches Ok((pf, n)) ==> pf.wf(),
+{ unimplemented!() }
+/// the text fields, in the order they were added
+pub closed spec fn texts_wire<'n, 'd>(delim: Seq<u8>, fs: Seq<Field<'n, 'd>>) -> Seq<u8> decreases fs.len() {
+    if fs.len() == 0 { Seq::empty() } else {
+        texts_wire(delim, fs.drop_last()) + (match fs.last().data { Data::Text(t) => text_field_bytes(delim, cow_str(&fs.last().name), cow_str(&t)), _ => Seq::empty() })
+    }
+}
+/// the stream parts, last added first (the reader pops them off the back)
+pub closed spec fn parts_wire<'n, 'd>(delim: Seq<u8>, fs: Seq<Field<'n, 'd>>) -> Seq<u8> decreases fs.len() {
+    if fs.len() == 0 { Seq::empty() } else {
+        (match fs.last().data {
+            Data::Stream(st) => part_header_bytes(delim, cow_str(&fs.last().name), match st.filename { Some(f) => Some(cow_str(&f)), None => None }, &st.content_type) + stream_bytes(&st.stream),
+            _ => Seq::empty() }) + parts_wire(delim, fs.drop_last())
+    }
+}
+/// attohttpc's MultipartBuilder::build adds text fields and in-memory streams only; file fields (opened from the file system
+/// inside from_fields) are outside the claim
+pub closed spec fn no_file_fields<'n, 'd>(fs: Seq<Field<'n, 'd>>) -> bool { forall|i: int| 0 <= i < fs.len() ==> !((#[trigger] fs[i]).data is File) }
+impl<'d> PreparedFields<'d> {
+    /// `CRLF -- boundary`: the closing delimiter without its two final dashes
+    pub closed spec fn delim(&self) -> Seq<u8> { cur_data(&self.end_boundary).take(cur_data(&self.end_boundary).len() - 2) }
+//@@ fn src/multipart_crate/lazy.rs impl<'d>~PreparedFields<'d> from_fields props=C15,C05 vattr=rlimit(80)
+//@@ rw R1
+format!("\r\n--{}", super::gen_boundary())
+//@@ =>
+vp_new_delimiter()
+//@@ block R8
+for field in fields.drain(..)
+//@@ =>
+{
+    while fields.len() > 0
+        invariant
+            fields@.len() <= all.len(), fields@ == all.skip(all.len() - fields@.len()),
+            no_file_fields(all), str_bytes(boundary@) == d,
+            text_data@ == texts_wire(d, all.take(all.len() - fields@.len())), // id: text_fields_laid_out_in_order [C15]
+            parts_owed(streams@) == parts_wire(d, all.take(all.len() - fields@.len())), // id: every_stream_field_becomes_one_part [C15]
+            all_wf(streams@), content_len == 0,
+        decreases fields@.len(), // id: every_field_is_consumed [C05]
+    {
+        broadcast use axiom_target_bytes_vec;
+        let ghost i = all.len() - fields@.len();
+        let ghost streams0 = streams@;
+        let field = fields.remove(0);
+        proof {
+            assert(field == all[i]);
+            assert(fields@ =~= all.skip(i + 1));
+            assert(all.take(i + 1).drop_last() =~= all.take(i));
+            assert(all.take(i + 1).last() == all[i]);
+        }
+@@BODY
+    }
+}
+//@@ rw R1
+write!(
+                    text_data,
+                    "{}\r\nContent-Disposition: form-data; \
+                     name=\"{}\"\r\n\r\n{}",
+                    boundary, field.name, text
+                )
+                .unwrap()
+//@@ =>
+vp_write_text_field(&mut text_data, &boundary, &field.name, &text)
+//@@ rw R1
+PreparedField::from_path(field.name, &file, &boundary)
+//@@ =>
+vp_from_path(field.name, &file, &boundary)
+//@@ rw R1
+&field.name,
+                        &boundary,
+                        &stream.content_type,
+                        stream.filename.as_deref(),
+//@@ =>
+vp_cow_as_str(&field.name), vp_string_as_str(&boundary), &stream.content_type, vp_opt_cow_as_deref(&stream.filename),
+//@@ rw R1
+boundary.push_str("--")
+//@@ =>
+vp_push_dashes(&mut boundary)
+//@@ rw R1 #*
+Cursor::new(
+//@@ =>
+vp_cursor_new(
+//@@ splice after_stmt
+let mut use_len = true
+//@@ with
+        broadcast use axiom_target_bytes_vec;
+        broadcast use axiom_target_bytes_string;
+        let ghost all = fields@;
+        let ghost d = str_bytes(boundary@);
+//@@ splice block_end
+Data::Stream(stream) =>
+//@@ with
+                        proof {
+                            assert(streams@.drop_last() =~= streams0);
+                            assert forall|k: int| 0 <= k < streams@.len() implies (#[trigger] streams@[k]).wf() by { if k < streams0.len() { assert(streams@[k] == streams0[k]); } }
+                        }
+//@@ splice before
+Ok(PreparedFields {
+//@@ with
+        proof {
+            assert(all.take(all.len() as int) =~= all);
+            let e = str_bytes(boundary@);
+            assert(e =~= d + seq![45u8, 45u8]);
+            assert(e.take(e.len() - 2) =~= d);
+            assert(e.skip(0) =~= e);
+            assert(text_data@.skip(0) =~= text_data@);
+        }
+//@@ contract
+        requires no_file_fields(old(fields)@),
+        ensures
+            res is Ok, // id: preparing_a_form_of_text_and_stream_fields_never_fails [C15]
+            res matches Ok(pf) ==> pf.wf() && pf.end_is_string() && pf.end_data().len() >= 6 // id: prepared_fields_are_well_formed_with_a_closing_delimiter [C15,C05]
+                && pf.end_data() == pf.delim() + seq![45u8, 45u8] && pf.delim().take(4) == seq![13u8, 10u8, 45u8, 45u8] // id: closing_delimiter_is_crlf_dashes_boundary_dashes [C15]
+                && pf.owed_mp() == texts_wire(pf.delim(), old(fields)@) + parts_wire(pf.delim(), old(fields)@) + pf.end_data(), // id: body_is_text_fields_then_parts_then_closing_delimiter [C15]
 //@@ end
 }
 pub open spec fn is_prefix_any(a: Seq<u8>, b: Seq<u8>) -> bool { exists|k: int| 0 <= k <= b.len() && a == b.skip(k) }
